@@ -1,4 +1,5 @@
 import CalmVerif.Props.C04
+import CalmVerif.Props.C04parse
 open CalmVerif.Props.C04 CalmVerif.Props.C04lex
 #print axioms asi_grammar_facts
 #print axioms asi_twins_same_tree
@@ -10,3 +11,11 @@ open CalmVerif.Props.C04 CalmVerif.Props.C04lex
 #check @auto_semi_decision
 #check @auto_semi_effect
 #check @pushed_back_token_is_next
+#print axioms CalmVerif.Props.C04parse.autosemi_justified
+#check @CalmVerif.Props.C04parse.autosemi_justified
+#print axioms CalmVerif.Props.C04parse.autosemi_is_exactly_the_inserted_tokens
+#check @CalmVerif.Props.C04parse.autosemi_is_exactly_the_inserted_tokens
+#print axioms CalmVerif.Props.C04parse.model_condition_implies_es5
+#check @CalmVerif.Props.C04parse.model_condition_implies_es5
+#print axioms CalmVerif.Props.C04parse.offending_has_line_terminator
+#check @CalmVerif.Props.C04parse.offending_has_line_terminator
